@@ -12,6 +12,7 @@ pub mod c08;
 pub mod c10;
 pub mod c11;
 pub mod c14;
+pub mod c14_enc;
 pub mod c15;
 pub mod c12;
 pub mod c16;
